@@ -166,6 +166,7 @@ class Gen:
     def call(self, top=False):
         r = self.rng
         k = self.cur
+        top = top or k < 0
         # forward calls are free; backward / self calls (cycles) are made only under `if next cr`
         cands = [j for j in range(len(self.fnames)) if j > k] if not top else list(range(len(self.fnames)))
         if top or (cands and r.random() < 0.7):
